@@ -309,7 +309,11 @@ func ExecImpl(s *rig.Stack, o Op) error {
 			return err
 		}
 		data := Content(o.C)
-		a, b := data[:len(data)/3], data[len(data)/3:]
+		k := (len(data) + 1) / 2
+		if len(data) > 8 {
+			k = len(data) / 3
+		}
+		a, b := data[:k], data[k:]
 		var werr error
 		switch o.N {
 		case 1: // Write; Sync; Write
@@ -328,6 +332,14 @@ func ExecImpl(s *rig.Stack, o Op) error {
 			}
 			if werr == nil && len(a) > 0 {
 				_, werr = f.WriteAt(a, 0)
+			}
+		case 4: // everything, then back to the middle, a size query on the handle, and the second part once more
+			if _, werr = f.Write(data); werr == nil {
+				if _, werr = f.Seek(int64(len(a)), io.SeekStart); werr == nil {
+					if _, werr = f.Stat(); werr == nil {
+						_, werr = f.Write(b)
+					}
+				}
 			}
 		default:
 			_, werr = f.Write(data)
@@ -468,6 +480,7 @@ func ExecImpl(s *rig.Stack, o Op) error {
 			h.Writes++
 			return err
 		case "hseek":
+			h.Seeks++
 			_, err := h.F.Seek(int64(o.N), 0)
 			return err
 		case "htrunc":
